@@ -10,6 +10,12 @@
      msgopt    message m { option (<SP>) = 1; }
      fldopt    message m { optional int32 zf = 1 [(<SP>) = 1]; }
      fileopt   option (<SP>) = 1;                                    (+ message m)
+     mtdopt    service zs { rpc zr(.pkg.m) returns (.pkg.m) { option (<SP>) = 1; } }
+   When `sib` is TRUE the host has an EARLIER SIBLING container zq of the same kind (message zq
+   before message m; service zq before service zs) and candidates may be declared inside it
+   (where = "sib"), or, for the service sites, inside message m (where = "sibm"): names nested in
+   a sibling are not in scope of the host, so they must not be found unqualified (a scope that is
+   pushed for one element and not popped leaks exactly these names).
    plus a set of CANDIDATE declarations named from a pool that collides with the package
    components (top level / inside the host / inside another candidate message), and optionally a
    second file with its own package that is imported, not imported, re-exported publicly through a
@@ -18,7 +24,8 @@ EXTENDS ProtoLang, TLC, Json
 
 CONSTANTS
   Pkgs1Ids,     \* subset of {"none","a","ab","b"}: package of f1
-  SiteKinds,    \* subset of {"type","extendee","input","output","msgopt","fldopt","fileopt"}
+  SiteKinds,    \* subset of {"type","extendee","input","output","msgopt","fldopt","fileopt","mtdopt"}
+  SibModes,     \* subset of BOOLEAN: with / without the earlier sibling container zq
   CandKinds,    \* subset of {"message","enum","enumv","field","oneof","ext","service","method"}
   CandNames,    \* e.g. {"a","b"}
   AllowChild,   \* BOOLEAN: candidates nested in a candidate message
@@ -27,14 +34,14 @@ CONSTANTS
   F2Decls,      \* subset of {"msg:a","msg:b","enum:a","msgab","ext:a","svc:a","val:b"}
   F2Rels        \* subset of {"plain","hidden","public","chain"}
 
-VARIABLES stage, site, pk, cands, f2
-vars == <<stage, site, pk, cands, f2>>
+VARIABLES stage, site, pk, cands, f2, sib
+vars == <<stage, site, pk, cands, f2, sib>>
 
 PkgOf(id) == CASE id = "none" -> <<>> [] id = "a" -> <<"a">> [] id = "ab" -> <<"a", "b">>
                [] id = "b" -> <<"b">> [] id = "ba" -> <<"b", "a">> [] OTHER -> <<>>
 None == [pkg |-> "-", decl |-> "-", rel |-> "-"]
-OptSites == {"msgopt", "fldopt", "fileopt"}
-HostIsSvc(s) == s \in {"input", "output"}
+OptSites == {"msgopt", "fldopt", "fileopt", "mtdopt"}
+HostIsSvc(s) == s \in {"input", "output", "mtdopt"}
 
 C(k, n, w) == [kind |-> k, name |-> n, where |-> w]
 CandSet(s) ==
@@ -43,7 +50,11 @@ CandSet(s) ==
                ELSE CandKinds \cap {"message", "enum", "enumv", "field", "oneof", "ext"}
       chK   == IF AllowChild THEN CandKinds \cap {"message", "enum", "field", "ext"} ELSE {}
       chW   == IF HostIsSvc(s) THEN {"top"} ELSE {"top", "host"}
-  IN {C(k, n, <<"top">>) : k \in topK, n \in CandNames}
+      inMsgK == CandKinds \cap {"message", "enum", "enumv", "field", "oneof", "ext"}
+      sibC  == IF ~sib \/ s = "fileopt" THEN {}
+               ELSE {C(k, n, <<"sib">>) : k \in hostK, n \in CandNames}
+                    \cup (IF HostIsSvc(s) THEN {C(k, n, <<"sibm">>) : k \in inMsgK, n \in CandNames} ELSE {})
+  IN sibC \cup {C(k, n, <<"top">>) : k \in topK, n \in CandNames}
      \cup {C(k, n, <<"host">>) : k \in hostK, n \in CandNames}
      \cup {C(k, n, <<w, pn>>) : k \in chK, n \in CandNames, w \in chW, pn \in CandNames}
 ParentCand(c) == C("message", c.where[2], <<c.where[1]>>)
@@ -54,23 +65,33 @@ Closed(S) == \A c \in S : Len(c.where) = 2 => ParentCand(c) \in S
 Probe == Rel(<<"PROBE">>)
 MRef(p) == Abs(p \o <<"m">>)
 
+(* indices in f1's declaration table: message sites  [zq] m probe...   service sites  m [zq] zs zr *)
+MIdx(s) == IF HostIsSvc(s) THEN 1 ELSE (IF sib THEN 2 ELSE 1)
+SvcIdx == IF sib THEN 3 ELSE 2
+SibIdx(s) == IF HostIsSvc(s) THEN 2 ELSE 1
 BaseDecls(s, p) ==
-  CASE s = "type"     -> << Msg("m", 0), Fld("zf", 1, 1, Probe) >>
-    [] s = "extendee" -> << Msg("m", 0), Ext("zx", 1, 1000, Probe, NoRef) >>
-    [] s = "input"    -> << Msg("m", 0), Svc("zs"), Mtd("zr", 2, Probe, MRef(p)) >>
-    [] s = "output"   -> << Msg("m", 0), Svc("zs"), Mtd("zr", 2, MRef(p), Probe) >>
-    [] s = "msgopt"   -> << WithOpts(Msg("m", 0), <<OptUse(Probe)>>) >>
-    [] s = "fldopt"   -> << Msg("m", 0), WithOpts(Fld("zf", 1, 1, NoRef), <<OptUse(Probe)>>) >>
-    [] OTHER          -> << Msg("m", 0) >>
-HostIdx(s) == IF HostIsSvc(s) THEN 2 ELSE 1
+  LET mi == MIdx(s)
+      preM == IF sib THEN << Msg("zq", 0) >> ELSE <<>>
+      preS == << Msg("m", 0) >> \o (IF sib THEN << Svc("zq") >> ELSE <<>>) \o << Svc("zs") >>
+  IN CASE s = "type"     -> preM \o << Msg("m", 0), Fld("zf", mi, 1, Probe) >>
+       [] s = "extendee" -> preM \o << Msg("m", 0), Ext("zx", mi, 1000, Probe, NoRef) >>
+       [] s = "input"    -> preS \o << Mtd("zr", SvcIdx, Probe, MRef(p)) >>
+       [] s = "output"   -> preS \o << Mtd("zr", SvcIdx, MRef(p), Probe) >>
+       [] s = "mtdopt"   -> preS \o << WithOpts(Mtd("zr", SvcIdx, MRef(p), MRef(p)), <<OptUse(Probe)>>) >>
+       [] s = "msgopt"   -> preM \o << WithOpts(Msg("m", 0), <<OptUse(Probe)>>) >>
+       [] s = "fldopt"   -> preM \o << Msg("m", 0), WithOpts(Fld("zf", mi, 1, NoRef), <<OptUse(Probe)>>) >>
+       [] OTHER          -> preM \o << Msg("m", 0) >>
+HostIdx(s) == IF HostIsSvc(s) THEN SvcIdx ELSE MIdx(s)
 ProbeSite(s) ==
-  CASE s = "type" -> <<2, "type">> [] s = "extendee" -> <<2, "extendee">>
-    [] s = "input" -> <<3, "input">> [] s = "output" -> <<3, "output">>
-    [] s = "msgopt" -> <<1, "opt1">> [] s = "fldopt" -> <<2, "opt1">> [] OTHER -> <<0, "opt1">>
+  CASE s = "type" -> <<MIdx(s) + 1, "type">> [] s = "extendee" -> <<MIdx(s) + 1, "extendee">>
+    [] s = "input" -> <<SvcIdx + 1, "input">> [] s = "output" -> <<SvcIdx + 1, "output">>
+    [] s = "mtdopt" -> <<SvcIdx + 1, "opt1">>
+    [] s = "msgopt" -> <<MIdx(s), "opt1">> [] s = "fldopt" -> <<MIdx(s) + 1, "opt1">> [] OTHER -> <<0, "opt1">>
 (* what candidate / second-file extensions extend: the options message of the probed site when an
    option name is probed, otherwise the neutral message m of their own file *)
 ExtTarget(s, p) == CASE s = "msgopt" -> OptionsRef("message") [] s = "fldopt" -> OptionsRef("field")
-                     [] s = "fileopt" -> OptionsRef("file") [] OTHER -> MRef(p)
+                     [] s = "fileopt" -> OptionsRef("file") [] s = "mtdopt" -> OptionsRef("method")
+                     [] OTHER -> MRef(p)
 
 (* declarations one candidate stands for; i = its ordinal (for numbers), par = parent index,
    at = index the first declaration will get *)
@@ -89,6 +110,7 @@ AddCands(decls, todo, i, idx, s, p) ==
   IF todo = <<>> THEN decls
   ELSE LET c == Head(todo)
            par == IF c.where = <<"top">> THEN 0 ELSE IF c.where = <<"host">> THEN HostIdx(s)
+                  ELSE IF c.where = <<"sib">> THEN SibIdx(s) ELSE IF c.where = <<"sibm">> THEN 1
                   ELSE (CHOOSE q \in idx : q[1] = ParentCand(c))[2]
            at == Len(decls) + 1
        IN AddCands(decls \o CandDecls(c, i, par, at, s, p), Tail(todo), i + 1, idx \cup {<<c, at>>}, s, p)
@@ -138,20 +160,22 @@ Good(ws, ps) == WellFormed(ws) /\ ExtNumsOK(ws) /\ OthersResolve(ws, ps)
 -----------------------------------------------------------------------------
 F2Configs == {[pkg |-> q, decl |-> d, rel |-> r] : q \in F2Pkgs, d \in F2Decls, r \in F2Rels}
 
-Init == /\ stage = "cands" /\ cands = {} /\ f2 = None
+Init == /\ stage = "cands" /\ cands = {} /\ f2 = None /\ sib \in SibModes
         /\ site \in SiteKinds /\ pk \in {PkgOf(i) : i \in Pkgs1Ids}
 AddCand == /\ stage = "cands" /\ Cardinality(cands) < MaxCands
            /\ \E c \in CandSet(site) \ cands :
                 /\ Closed(cands \cup {c}) = TRUE      \* "= TRUE": evaluate as a state predicate
                 /\ Good(Ws(site, pk, cands \cup {c}, None), ProbeSite(site)) = TRUE
                 /\ cands' = cands \cup {c}
-           /\ UNCHANGED <<stage, site, pk, f2>>
+           /\ UNCHANGED <<stage, site, pk, f2, sib>>
 Finish == /\ stage = "cands"
+          (* a sibling container is only worth a case when something is declared in it *)
+          /\ (sib => \E c \in cands : c.where[1] \in {"sib", "sibm"}) = TRUE
           /\ \E x \in F2Configs \cup {None} :
                /\ Good(Ws(site, pk, cands, x), ProbeSite(site)) = TRUE
                /\ f2' = x
           /\ stage' = "done"
-          /\ UNCHANGED <<site, pk, cands>>
+          /\ UNCHANGED <<site, pk, cands, sib>>
 Next == AddCand \/ Finish
 Spec == Init /\ [][Next]_vars
 
@@ -161,6 +185,7 @@ Spec == Init /\ [][Next]_vars
 Seqs(S, n) == UNION {[1..k -> S] : k \in 1..n}
 PoolParts == Seqs(CandNames, 3) \cup {s \o <<"c">> : s \in Seqs(CandNames, 2)}
              \cup {<<"c">>, <<"c", "a">>, <<"m">>, <<"m", "a">>, <<"m", "b">>, <<"m", "a", "b">>, <<"zs", "a">>,
+                   <<"zq">>, <<"zq", "a">>, <<"zq", "b">>,
                    <<"zf">>, <<"a", "m">>, <<"a", "m", "a">>, <<"a", "b", "m">>, <<"a", "b", "m", "a">>, <<"b", "m", "a">>}
 Spellings == {Sp(ab, q) : ab \in BOOLEAN, q \in PoolParts}
 
@@ -170,7 +195,7 @@ Case ==
       ps == ProbeSite(site)
       env == Env(ws, 1)
   IN [check |-> "C15", ws |-> WsV(ws),
-      site |-> [file |-> 1, decl |-> ps[1], slot |-> ps[2]], sitekind |-> site,
+      site |-> [file |-> 1, decl |-> ps[1], slot |-> ps[2]], sitekind |-> site, sib |-> sib,
       fqns |-> [g \in Files(ws) |-> DeclFQNs(ws, g)],
       refs |-> [g \in Files(ws) |-> {RefV(r) : r \in {x \in RefsOf(ws, g) : ~(g = 1 /\ <<x.decl, x.slot>> = ps)}}],
       probes |-> SetToSeq({[sp |-> SpText(sp), exp |-> ExpV(Outcome(ws, env, 1, ps[1], ps[2], sp))] : sp \in Spellings})]
